@@ -240,7 +240,7 @@ extern "C" void __sanitizer_malloc_hook(const volatile void* p, size_t n) { t_he
 extern "C" void __sanitizer_free_hook(const volatile void* p) { t_heap_live--; if (g_trace_heap) fprintf(stderr, "  free %p\n", (void*)p); }
 // The default 256 MB quarantine makes every allocation touch fresh pages (5x slower here); 16 MB still
 // spans thousands of evaluations.  ASAN_OPTIONS in the environment overrides these defaults.
-extern "C" const char* __asan_default_options() { return "quarantine_size_mb=16:malloc_context_size=4"; }
+extern "C" const char* __asan_default_options() { return "quarantine_size_mb=16:malloc_context_size=2"; }
 static thread_local std::string t_keybuf;
 
 struct Tier {
@@ -275,10 +275,40 @@ struct Runner {
   using MV = std::vector<E>;
   static_assert(CV::kMaxBuffers <= 16, "masks are 16 bit");
 
+  // The vector objects live in slots inside Env (placement new) rather than on the heap: two 1 KB
+  // ASan allocations per evaluation were a third of the run time.  Their buffers stay on the heap.
+  struct Env;
+  struct SlotDel {
+    Env* env;
+    void operator()(CV* p) const {
+      p->~CV();
+      env->release(p);
+    }
+  };
+  using Ptr = std::unique_ptr<CV, SlotDel>;
   struct Env {
-    std::unique_ptr<CV> v, w;
+    alignas(alignof(CV)) unsigned char store[4][sizeof(CV)];
+    bool used[4] = {false, false, false, false};
+    Ptr v, w;
     MV mv, mw;
-    Env() : v(new CV()), w(new CV()) {}
+    void release(CV* p) {
+      for (int i = 0; i < 4; i++)
+        if ((void*)store[i] == (void*)p) used[i] = false;
+    }
+    template <class... A>
+    Ptr make(A&&... a) {
+      for (int i = 0; i < 4; i++)
+        if (!used[i]) {
+          used[i] = true;
+          return Ptr(new ((void*)store[i]) CV(std::forward<A>(a)...), SlotDel{this});
+        }
+      abort();
+    }
+    Env() : v(nullptr, SlotDel{this}), w(nullptr, SlotDel{this}) {
+      v = make();
+      w = make();
+    }
+    Env(const Env&) = delete;
   };
 
   int cfg_id = 0;
@@ -600,48 +630,48 @@ struct Runner {
         return {};
       }
       case CT_DEFAULT: {
-        e.v.reset(new CV());
+        e.v = e.make();
         mv.clear();
         return {};
       }
       case CT_RESERVE: {
-        e.v.reset(new CV(n, dispenso::ReserveTag));
+        e.v = e.make(n, dispenso::ReserveTag);
         mv.clear();
         return {};
       }
       case CT_N: {
-        e.v.reset(new CV(n));
+        e.v = e.make(n);
         MV(n).swap(mv);
         return {};
       }
       case CT_NVAL: {
         E x(f);
-        e.v.reset(new CV(n, x));
+        e.v = e.make(n, x);
         MV(n, x).swap(mv);
         return {};
       }
       case CT_RANGE: {
         MV src = seqvals(n);
-        e.v.reset(new CV(src.begin(), src.end()));
+        e.v = e.make(src.begin(), src.end());
         mv = src;
         return {};
       }
       case CT_SIZED_RANGE: {
         MV src = seqvals(n);
         std::list<E> l(src.begin(), src.end());
-        e.v.reset(new CV(n, l.begin(), l.end()));
+        e.v = e.make(n, l.begin(), l.end());
         mv = src;
         return {};
       }
       case CT_ILIST: {
         return with_ilist((int)n, f, [&](std::initializer_list<E> il) {
-          e.v.reset(new CV(il));
+          e.v = e.make(il);
           MV(il).swap(mv);
           return Err{};
         });
       }
       case CT_COPY: {
-        std::unique_ptr<CV> t(new CV(v));
+        Ptr t = e.make(v);
         Err r = contents(*t, mv, "copy-constructed vector");
         if (r.bad()) return r;
         r = contents(v, mv, "source of copy construction");
@@ -650,7 +680,7 @@ struct Runner {
         return {};
       }
       case CT_MOVE: {
-        std::unique_ptr<CV> t(new CV(std::move(v)));
+        Ptr t = e.make(std::move(v));
         Err r = contents(*t, mv, "move-constructed vector");
         if (r.bad()) return r;
         MV scratch;
@@ -660,12 +690,12 @@ struct Runner {
         return {};
       }
       case CT_COPY_W: {
-        e.v.reset(new CV(w));
+        e.v = e.make(w);
         mv = mw;
         return {};
       }
       case CT_MOVE_W: {
-        e.v.reset(new CV(std::move(w)));
+        e.v = e.make(std::move(w));
         mv = mw;
         return valid_unspecified(w, mw);
       }
@@ -731,7 +761,7 @@ struct Runner {
     return {};
   }
 
-  static Err deep(CV& v, const MV& m, const char* which) {
+  static Err deep(CV& v, const MV& m, const char* which, bool with_throws) {
     Err r = contents(v, m, which);
     if (r.bad()) return r;
     const CV& c = v;
@@ -766,6 +796,12 @@ struct Runner {
       if (c[i].v != m[i].v || v.at(i).v != m[i].v || c.at(i).v != m[i].v) return mk("operator[] const / at() wrong", seq::fmt("%s i=%zu", which, i));
       if (&v[i] != &v.at(i) || &v[i] != &*(v.begin() + (ssize_t)i)) return mk("[] / at / iterator disagree on the address", which);
     }
+    if (n) {
+      if (v.front().v != m.front().v || c.front().v != m.front().v) return mk("front() wrong", which);
+      if (v.back().v != m.back().v || c.back().v != m.back().v) return mk("back() wrong", which);
+      if (&v.front() != &v[0] || &v.back() != &v[n - 1]) return mk("front()/back() address wrong", which);
+    }
+    if (!with_throws) return {}; // (each throw costs a sigaltstack syscall under ASan; w only ever holds states v had)
     bool threw = false;
     try {
       (void)v.at(n);
@@ -780,11 +816,6 @@ struct Runner {
       threw = true;
     }
     if (!threw) return mk("const at(size()) does not throw", which);
-    if (n) {
-      if (v.front().v != m.front().v || c.front().v != m.front().v) return mk("front() wrong", which);
-      if (v.back().v != m.back().v || c.back().v != m.back().v) return mk("back() wrong", which);
-      if (&v.front() != &v[0] || &v.back() != &v[n - 1]) return mk("front()/back() address wrong", which);
-    }
     return {};
   }
 
@@ -853,8 +884,8 @@ struct Runner {
     return {};
   }
   static Err all_observers(Env& e) {
-    Err r = deep(*e.v, e.mv, "v");
-    if (!r.bad()) r = deep(*e.w, e.mw, "w");
+    Err r = deep(*e.v, e.mv, "v", true);
+    if (!r.bad()) r = deep(*e.w, e.mw, "w", false);
     if (!r.bad()) r = compare_ops(*e.v, *e.w, e.mv, e.mw);
     return r;
   }
@@ -1074,7 +1105,8 @@ struct Runner {
             continue; // dead end
           }
           if (o.life.bad()) add_violation(std::string(kKinds[op.k].name) + ": " + o.life.cls, o.life, s.hist, &op);
-          if (d + 1 < t.depth && seen.insert(o.key).second) {
+          // last level: remember the state too, so that the complete observer set runs once per state
+          if (seen.insert(o.key).second && d + 1 < t.depth) {
             StateRec ns;
             ns.hist = s.hist;
             ns.hist.push_back(op);
